@@ -42,7 +42,8 @@ def run_one(sid):
             based_on = "commit " + meta["base_commit"]
         if p.returncode != 0:
             return {"id": sid, "property": prop, "applied": False, "detail": (p.stdout + p.stderr)[-400:]}
-        env = dict(os.environ, VERIF_REPO=scratch, VERIF_EVIDENCE_DIR=os.path.join(scratch, "evidence"))
+        env = dict(os.environ, VERIF_REPO=scratch, VERIF_EVIDENCE_DIR=os.path.join(scratch, "evidence"),
+                   VERIF_STOP_EARLY=os.environ.get("VERIF_STOP_EARLY", "1"))   # stop handing out runs after the first violation
         env.update(meta.get("check_env", {}))
         t = time.time()
         tier = meta.get("tier", "quick")
